@@ -3,6 +3,7 @@
     envelope. *)
 From Coq Require Import List NArith ZArith Arith Bool Lia.
 From Tongo Require Import Lib.Bits Lib.Res Model.BocParse Model.CellHash Spec.ReprHash Model.Wallet.
+From Tongo Require Model.TlbCore Proofs.TlbCoreP.
 Import ListNotations.
 
 (** *** cursors *)
@@ -140,6 +141,52 @@ Proof.
   destruct hi; reflexivity.
 Qed.
 
+Lemma int8_of_range z : (-128 <= int8_of z < 128)%Z.
+Proof. unfold int8_of. pose proof (Z.mod_pos_bound (z + 128) 256 ltac:(lia)). lia. Qed.
+
+Lemma int8_of_mod z : (int8_of z mod 256 = z mod 256)%Z.
+Proof.
+  unfold int8_of. pose proof (Z.div_mod (z + 128) 256 ltac:(lia)) as D.
+  replace ((z + 128) mod 256 - 128)%Z with (z + (- ((z + 128) / 256)) * 256)%Z by lia.
+  apply Z.mod_add. lia.
+Qed.
+
+Lemma enc_int8_of z : TlbCore.enc_int_bits 8 (int8_of z) = u8 (Z.to_N (z mod 256)).
+Proof.
+  unfold TlbCore.enc_int_bits, u8. change (2 ^ Z.of_nat 8)%Z with 256%Z. rewrite int8_of_mod. reflexivity.
+Qed.
+
+Lemma ext_in_std_ok wc addr :
+  length addr = 256%nat -> TlbCore.addr_ok (TlbCore.AStd None (int8_of wc) addr) = true.
+Proof.
+  intros H. unfold TlbCore.addr_ok, TlbCore.any_ok, TlbCore.zfits. rewrite H, Nat.eqb_refl.
+  pose proof (int8_of_range wc) as R.
+  assert (E1 : ((- 2 ^ (Z.of_nat 8 - 1) <=? int8_of wc) = true)%Z)
+    by (apply Z.leb_le; change (2 ^ (Z.of_nat 8 - 1))%Z with 128%Z; lia).
+  assert (E2 : ((int8_of wc <? 2 ^ (Z.of_nat 8 - 1)) = true)%Z)
+    by (apply Z.ltb_lt; change (2 ^ (Z.of_nat 8 - 1))%Z with 128%Z; lia).
+  rewrite E1, E2. reflexivity.
+Qed.
+
+(* the bits CreateExternalMessage writes are the info of ext_in_std, then init
+   and body flags *)
+Lemma ext_bits_info wc addr hi :
+  ext_bits wc addr hi =
+  [true] ++ [false] ++ TlbCore.addr_bits TlbCore.ANone ++
+  TlbCore.addr_bits (TlbCore.AStd None (int8_of wc) addr) ++ zeros 4 ++
+  (if hi then [true; true] else [false]) ++ [true].
+Proof.
+  unfold ext_bits, TlbCore.addr_bits, TlbCore.any_bits. rewrite enc_int8_of.
+  cbn [app]. rewrite <- !app_assoc. reflexivity.
+Qed.
+
+Lemma grams_dec_zero rest : grams_dec (zeros 4 ++ rest) = Ok (0%N, rest).
+Proof.
+  unfold grams_dec. rewrite (take_app_n 4) by reflexivity. cbn [bind fst snd].
+  change (8 * N.to_nat (N_of_bits (zeros 4)))%nat with 0%nat.
+  unfold take. cbn [short firstn skipn bind fst snd]. reflexivity.
+Qed.
+
 Section Env.
 Variable chash : cell -> res bytes.
 
@@ -147,22 +194,16 @@ Lemma parse_ext_msg wc addr init body e h :
   length addr = 256%nat -> init_ok chash init ->
   ext_msg wc addr init body = Ok e -> chash e = Ok h ->
   parse_ext chash e =
-    Ok (mkext (Z.to_N (wc mod 256)) addr init (ocell (cdata body) (crefs body))).
+    Ok (mkext (ext_in_std wc addr) init (ocell (cdata body) (crefs body))).
 Proof.
   intros Ha Hi He Hh. unfold ext_msg in He. apply mk_ok in He. destruct He as (-> & _ & _).
   unfold parse_ext. rewrite Hh. cbn [bind]. unfold ocell at 1. cbn [cdata crefs].
-  unfold ext_bits.
-  rewrite (take_app_n 2) by reflexivity. cbn [bind fst snd].
-  rewrite (take_app_n 2) by reflexivity. cbn [bind fst snd].
-  rewrite (take_app_n 3) by reflexivity. cbn [bind fst snd].
-  rewrite (take_app_n 8) by apply u8_len. cbn [bind fst snd].
-  rewrite (take_app_n 256) by exact Ha. cbn [bind fst snd].
-  rewrite (take_app_n 4) by reflexivity. cbn [bind fst snd].
-  change (8 * N.to_nat (N_of_bits (zeros 4)))%nat with 0%nat.
-  assert (Hz : (Z.to_N (wc mod 256)%Z < 256)%N).
-  { assert (H := Z.mod_pos_bound wc 256 ltac:(lia)). change 256%N with (Z.to_N 256).
-    apply Z2N.inj_lt; lia. }
-  rewrite N_u8 by exact Hz.
+  rewrite ext_bits_info. unfold info_dec.
+  rewrite (take_app_n 1) by reflexivity. cbn [bind fst snd nth negb].
+  rewrite (take_app_n 1) by reflexivity. cbn [bind fst snd nth negb].
+  rewrite TlbCoreP.addr_parse_bits by reflexivity. cbn [bind fst snd].
+  rewrite TlbCoreP.addr_parse_bits by (apply ext_in_std_ok, Ha). cbn [bind fst snd].
+  rewrite grams_dec_zero. cbn [bind fst snd].
   destruct init as [i|]; cbn [init_ok] in Hi; cbn [app]; unfold take;
     cbn [short firstn skipn bind fst snd nth crefs ocell].
   - rewrite Hi. reflexivity.
